@@ -102,23 +102,27 @@ def renumber (segs : List Seg) : List Seg :=
 def insertAt {α} (l : List α) (pos : Nat) (x : α) : List α :=
   l.take pos ++ x :: l.drop pos
 
+/-- the name `insertSegment` gives the new segment (before uniquifying), or the rejection -/
+def insertName (fn : Fn) (name : Val) : Except Err String :=
+  if fn.special then .ok fn.name
+  else match name with
+    | .none => .ok fn.name
+    | .str s => if s = "" then .ok fn.name
+                else if endsInDigit s then .error .value else .ok s
+    | _ => .error .value     -- non-string names blow up inside _basename
+
+/-- Python `lst.insert(pos, x)` / `lst.append(x)` for `pos = -1` -/
+def insertSegs (segs : List Seg) (pos : Int) (seg : Seg) : List Seg :=
+  if pos = -1 then segs ++ [seg] else insertAt segs pos.toNat seg
+
 /-- `BluePrint.insertSegment(pos, func, args, dur, name)` -/
 def insertSegment (b : BP) (pos : Int) (fn : Fn) (args : List Val) (dur : Val) (name : Val) :
     Res BP :=
   if Gen.insertPosBad pos then ⟨b, some .value⟩ else
-  let nm : Except Err String :=
-    if fn.special then .ok fn.name
-    else match name with
-      | .none => .ok fn.name
-      | .str s => if s = "" then .ok fn.name
-                  else if endsInDigit s then .error .value else .ok s
-      | _ => .error .value     -- non-string names blow up inside _basename
-  match nm with
+  match insertName fn name with
   | .error e => ⟨b, some e⟩
   | .ok nm =>
-    let seg : Seg := { name := nm, fn := fn, args := args, dur := dur }
-    let segs := if pos = -1 then b.segs ++ [seg] else insertAt b.segs pos.toNat seg
-    ⟨{ b with segs := renumber segs }, none⟩
+    ⟨{ b with segs := renumber (insertSegs b.segs pos { name := nm, fn := fn, args := args, dur := dur }) }, none⟩
 
 def indexOf? (b : BP) (name : String) : Option Nat :=
   let i := b.names.idxOf name
@@ -141,6 +145,19 @@ def targets (b : BP) (name : String) (all : Bool) : String × List String :=
 def modifySeg (b : BP) (i : Nat) (f : Seg → Seg) : BP :=
   { b with segs := b.segs.modify i f }
 
+/-- resolve an argument given by name or by position against the segment's own signature -/
+def argIndex (seg : Seg) (arg : Val) : Except Err Nat :=
+  match arg with
+  | .str a =>
+    if seg.fn.params.contains a then .ok (seg.fn.params.idxOf a) else .error .value
+  | .num q =>
+    if q.den = 1 then
+      (if 0 ≤ q.num ∧ q.num.toNat < seg.fn.params.length - 2 then .ok q.num.toNat else .error .value)
+    else .error .type       -- a float index: list indices must be integers
+  | _ => .error .type
+
+def setArg (k : Nat) (value : Val) (s : Seg) : Seg := { s with args := s.args.set k value }
+
 /-- one step of `changeArg`'s loop: resolve the argument of segment `nm` and store `value` -/
 def changeArgOne (b : BP) (nm : String) (arg : Val) (value : Val) : Res BP :=
   match b.indexOf? nm with
@@ -151,21 +168,10 @@ def changeArgOne (b : BP) (nm : String) (arg : Val) (value : Val) : Res BP :=
     | some seg =>
       if seg.fn.special then ⟨b, some .type⟩     -- signature('waituntil') is a TypeError
       else
-        let userParams := seg.fn.params.length - 2
-        let idx : Except Err Nat :=
-          match arg with
-          | .str a =>
-            if seg.fn.params.contains a then .ok (seg.fn.params.idxOf a) else .error .value
-          | .num q =>
-            if q.den = 1 then
-              (if 0 ≤ q.num ∧ q.num.toNat < userParams then .ok q.num.toNat else .error .value)
-            else .error .type       -- a float index: list indices must be integers
-          | _ => .error .type
-        match idx with
+        match argIndex seg arg with
         | .error e => ⟨b, some e⟩
         | .ok k =>
-          if k < seg.args.length then
-            ⟨b.modifySeg i (fun s => { s with args := s.args.set k value }), none⟩
+          if k < seg.args.length then ⟨b.modifySeg i (setArg k value), none⟩
           else ⟨b, some .index⟩
 
 def changeArgLoop (b : BP) : List String → Val → Val → Res BP
@@ -177,26 +183,30 @@ def changeArgLoop (b : BP) : List String → Val → Val → Res BP
 
 /-- `BluePrint.changeArg(name, arg, value, replaceeverywhere)` -/
 def changeArg (b : BP) (name : String) (arg : Val) (value : Val) (all : Bool) : Res BP :=
-  let (look, tgts) := b.targets name all
-  if ¬ b.names.contains look then ⟨b, some .value⟩
-  else changeArgLoop b tgts arg value
+  if ¬ b.names.contains (b.targets name all).1 then ⟨b, some .value⟩
+  else changeArgLoop b (b.targets name all).2 arg value
+
+/-- `if self.SR is not None: if dur * self.SR < 1` -/
+def durTooShort (sr : Val) (d : Rat) : Bool :=
+  match sr with
+  | .num r => Gen.durSubSample d r
+  | _ => false
+
+def setDur (tgts : List String) (d : Rat) (s : Seg) : Seg :=
+  if tgts.contains s.name then { s with dur := .num d } else s
 
 /-- `BluePrint.changeDuration(name, dur, replaceeverywhere)` -/
 def changeDuration (b : BP) (name : String) (dur : Val) (all : Bool) : Res BP :=
   match dur with
   | .num d =>
-    let (look, tgts) := b.targets name all
-    if ¬ b.names.contains look then ⟨b, some .value⟩
-    else if tgts.isEmpty then ⟨b, none⟩
+    if ¬ b.names.contains (b.targets name all).1 then ⟨b, some .value⟩
     else if Gen.durNonPositive d then ⟨b, some .value⟩
-    else
-      let tooShort : Bool := match b.SR with
-        | .num sr => Gen.durSubSample d sr
-        | _ => false
-      if tooShort then ⟨b, some .value⟩
-      else
-        ⟨{ b with segs := b.segs.map (fun s => if tgts.contains s.name then { s with dur := .num d } else s) }, none⟩
+    else if durTooShort b.SR d then ⟨b, some .value⟩
+    else ⟨{ b with segs := b.segs.map (setDur (b.targets name all).2 d) }, none⟩
   | _ => ⟨b, some .value⟩
+
+def setMark (mid : Int) (specs : Mark) (s : Seg) : Seg :=
+  if mid = 1 then { s with m1 := specs } else { s with m2 := specs }
 
 /-- `BluePrint.setSegmentMarker(name, specs, markerID)` -/
 def setSegmentMarker (b : BP) (name : String) (specs : Mark) (mid : Int) : Res BP :=
@@ -204,7 +214,7 @@ def setSegmentMarker (b : BP) (name : String) (specs : Mark) (mid : Int) : Res B
   match b.indexOf? name with
   | none => ⟨b, some .value⟩
   | some i =>
-    ⟨b.modifySeg i (fun s => if mid = 1 then { s with m1 := specs } else { s with m2 := specs }), none⟩
+    ⟨b.modifySeg i (setMark mid specs), none⟩
 
 /-- `BluePrint.removeSegmentMarker(name, markerID)` -/
 def removeSegmentMarker (b : BP) (name : String) (mid : Int) : Res BP :=
@@ -212,7 +222,7 @@ def removeSegmentMarker (b : BP) (name : String) (mid : Int) : Res BP :=
   match b.indexOf? name with
   | none => ⟨b, some .key⟩
   | some i =>
-    ⟨b.modifySeg i (fun s => if mid = 1 then { s with m1 := (0, 0) } else { s with m2 := (0, 0) }), none⟩
+    ⟨b.modifySeg i (setMark mid (0, 0)), none⟩
 
 /-- the name `BluePrint.__init__` gives a segment whose incoming (base) name is `nm` -/
 def initName (s : Seg) (nm : String) : String :=
